@@ -20,4 +20,6 @@ INVARIANT RevokedUnfetchable
 INVARIANT NoSpuriousRevoke
 INVARIANT ReplicaExactM
 INVARIANT NoSilentDropM
+INVARIANT CandExport
+INVARIANT NontrivExport
 CHECK_DEADLOCK FALSE
